@@ -9,6 +9,7 @@ import (
 	"path/filepath"
 	"strconv"
 	"strings"
+	"time"
 
 	"golang.org/x/tools/go/ssa"
 )
@@ -158,7 +159,12 @@ func (ex *Exec) intrinsic(g *G, f *Frame, fn *ssa.Function, args []Value, call *
 		f := ex.convert(days, nil, types.Typ[types.Float64]).(Flt)
 		return ex.fltBinop(token.MUL, f, ex.fltC(24, 64)), false
 	case "time.Date":
-		panic(unsupported{"time.Date (use vrt.Day in harnesses; day-number model)"})
+		// day-number model: whole days since 2000-01-01 (the epoch of vrt.Day)
+		y, mo, d := int(ex.concInt(args[0], "time.Date year")), int(ex.concInt(args[1], "time.Date month")), int(ex.concInt(args[2], "time.Date day"))
+		days := int64(time.Date(y, time.Month(mo), d, 0, 0, 0, 0, time.UTC).Sub(time.Date(2000, 1, 1, 0, 0, 0, 0, time.UTC)).Hours() / 24)
+		t := ex.zero(fn.Signature.Results().At(0).Type()).(Struct)
+		t[1] = mkInt(days, 64, false)
+		return t, false
 	case "path/filepath.Join", "path.Join":
 		var parts []string
 		for _, e := range args[0].(Slice).A {
